@@ -4,6 +4,7 @@ import MxModel.Proofs.ExecGhostOps
 import MxModel.Proofs.ExecLog
 import MxModel.Exec.Expr
 import MxModel.Proofs.ExprSpell
+import MxModel.Proofs.ExprBindItem
 /-!
 # C01 – memoisation is transparent
 
@@ -173,6 +174,21 @@ theorem bind_keyword_order_and_canonical (a : Nat) (dflt pos : List Val) (kw kw'
     bindKey a dflt pos kw = bindKey a dflt pos kw' ∧
     ∀ key, bindKey a dflt pos kw = some key → bindKey a dflt key [] = some key ∧ key.length = a :=
   ⟨bindKey_perm a dflt pos hp, fun key h => ⟨bindKey_canonical a dflt pos kw key h, bindKey_length a dflt pos kw key h⟩⟩
+
+/-- **The exec layer's binder and the C07 kernel's binder are the same function** (the statement SEEDE left
+open): under any injective naming of the parameters (`nm`; the driver and the harness use `a<i>`) and the
+embedding of the C07 kernel's integer values, `bindKey` computes what `ItemSpace.bindArgs` computes – for
+which `C07.bind_iff` / `bind_canonical` say that it is Python's rule – for every signature (`sigOf`: `a`
+parameters, the last ones with the defaults `dflt`) and every spelling. -/
+theorem bind_agrees_with_itemspace_binding (nm : Nat → String) (hinj : ∀ i j, nm i = nm j → i = j) (a : Nat)
+    (dflt pos : List Int) (kw : List (Nat × Int)) :
+    bindKey a (dflt.map .int) (pos.map .int) (kwVals kw) =
+      (ItemSpace.bindArgs (sigOf nm a dflt) pos (kwNamed nm kw)).map (·.map Val.int) :=
+  bindKey_eq_bindArgs hinj a dflt pos kw
+
+example : bindKey 3 [.int 100, .int 10] [] [(2, .int 5), (0, .int 3)] =
+    (ItemSpace.bindArgs (sigOf nmA 3 [100, 10]) [] [("aa", 5), ("", 3)]).map (·.map Val.int) :=
+  bind_agrees_with_itemspace_binding nmA nmA_inj 3 [100, 10] [] [(2, 5), (0, 3)]
 
 /-- **Equal spellings, same element (top level).**  Two spellings – positional, keyword in any order,
 mixed, relying on defaults – that bind to the same key are, in the mechanism, the same request: what
